@@ -71,3 +71,74 @@ pub fn shift_z(a: &[i64], k: usize) -> Vec<i64> {
     }
     c
 }
+
+/// smallest generator of Z_q^*
+pub fn primitive_root() -> i64 {
+    use super::zq;
+    // q - 1 = 2^12 * 3
+    for g in 2..Q {
+        if zq::pow(g, (Q as u64 - 1) / 2) != 1 && zq::pow(g, (Q as u64 - 1) / 3) != 1 {
+            return g;
+        }
+    }
+    unreachable!()
+}
+
+/// the n roots of X^n + 1 modulo q (odd powers of a primitive 2n-th root), natural order
+pub fn roots(n: usize) -> Vec<i64> {
+    use super::zq;
+    let g = primitive_root();
+    let psi = zq::pow(g, (Q as u64 - 1) / (2 * n as u64));
+    (0..n).map(|k| zq::pow(psi, (2 * k + 1) as u64)).collect()
+}
+
+/// evaluations of a at the roots (naive O(n^2) DFT)
+pub fn eval_at_roots(a: &[i64], roots: &[i64]) -> Vec<i64> {
+    roots
+        .iter()
+        .map(|&w| {
+            let mut acc = 0i64;
+            for &c in a.iter().rev() {
+                acc = (acc * w + c.rem_euclid(Q)) % Q;
+            }
+            acc
+        })
+        .collect()
+}
+
+/// interpolation from evaluations at the roots of X^n+1 (naive O(n^2))
+pub fn interpolate(vals: &[i64], roots: &[i64]) -> Vec<i64> {
+    use super::zq;
+    let n = vals.len();
+    let inv = zq::inverse_table();
+    let ninv = inv[(n as i64 % Q) as usize];
+    // a_j = n^-1 sum_k vals[k] * w_k^-j
+    let winv: Vec<i64> = roots.iter().map(|&w| inv[w as usize]).collect();
+    let mut out = vec![0i64; n];
+    let mut pw: Vec<i64> = vec![1; n];
+    for j in 0..n {
+        let mut acc = 0i64;
+        for k in 0..n {
+            acc = (acc + vals[k] * pw[k]) % Q;
+        }
+        out[j] = acc * ninv % Q;
+        for k in 0..n {
+            pw[k] = pw[k] * winv[k] % Q;
+        }
+    }
+    out
+}
+
+/// inverse in Z_q[X]/(X^n+1), None if not a unit
+pub fn inv_q(a: &[i64]) -> Option<Vec<i64>> {
+    use super::zq;
+    let n = a.len();
+    let r = roots(n);
+    let ev = eval_at_roots(a, &r);
+    if ev.iter().any(|&x| x == 0) {
+        return None;
+    }
+    let inv = zq::inverse_table();
+    let iv: Vec<i64> = ev.iter().map(|&x| inv[x as usize]).collect();
+    Some(interpolate(&iv, &r))
+}
